@@ -159,7 +159,12 @@ class Controller:
             pass
 
     def time(self):
-        self.clock += 1
+        # logical clock: non-decreasing; with `tie_mod` some consecutive calls
+        # return the same value (coarse real clocks do that)
+        self.ncalls = getattr(self, 'ncalls', 0) + 1
+        tie = getattr(self, 'tie_mod', 0)
+        if not (tie and self.ncalls % tie == 0):
+            self.clock += 1
         self.pending_times.append(self.clock)
         return float(self.clock)
 
